@@ -272,6 +272,15 @@ impl MetadataClient for LocalMetadataClient {
             )));
         }
 
+        // A chunk cannot be replaced by itself: deleting the sources would delete the target
+        // (the object-store backend refuses this swap too).
+        if source_chunks.iter().any(|p| p == target_chunk) {
+            return Err(crate::Error::Metadata(format!(
+                "Compaction target chunk is one of its own sources: {}",
+                target_chunk
+            )));
+        }
+
         // Determine the new level (max source level + 1)
         let new_level = source_chunks
             .iter()
